@@ -1,3 +1,256 @@
 import SqliteDissect.Proofs.Wal
 namespace SqliteDissect.Proofs.WalHistory
+open SqliteDissect SqliteDissect.Model
+
+/-! ### page source of a commit record -/
+
+theorem wal_page_source (strict : Bool) (dbv : VersionIf) (wal : Wal) (number dbSize : Nat)
+    (pvi pfi : List (Nat × Nat)) (own : List Nat) (p : Nat)
+    (hps : 0 < wal.hdr.pageSize) (hp : 1 ≤ p ∧ p ≤ dbSize)
+    (hf : ∀ q f, dictGet? pfi q = some f → 1 ≤ f) :
+    (walVersionIf strict dbv wal number dbSize pvi pfi own).getData p 0 none =
+      match dictGet? pvi p with
+      | none => .error .keyError
+      | some 0 => dbv.getData p 0 none
+      | some (k + 1) =>
+        if k + 1 = number ∧ ¬ own.contains p then .error .parseError
+        else match dictGet? pfi p with
+          | none => .error .keyError
+          | some f => wal.fh.read (Spec.frameImageOffset wal.hdr.pageSize f) wal.hdr.pageSize := by
+  unfold walVersionIf
+  simp only
+  cases hpv : dictGet? pvi p with
+  | none => rfl
+  | some pv =>
+    cases pv with
+    | zero => simp
+    | succ k =>
+      simp only [Nat.add_one_ne_zero, if_false, Nat.sub_zero, Nat.zero_add, Nat.add_zero]
+      rw [if_neg (by omega), if_neg (by omega), if_neg (by omega)]
+      by_cases hc : k + 1 = number ∧ ¬ own.contains p = true
+      · rw [if_pos hc, if_pos hc]; rfl
+      · rw [if_neg hc, if_neg hc]
+        cases hpf : dictGet? pfi p with
+        | none => rfl
+        | some f =>
+          simp only [bind, Except.bind]
+          rw [Wal.frame_offset _ _ (hf p f hpf)]
+
+/-! ### frame numbers in the index -/
+
+theorem pfi_values_are_frame_numbers (gs : List (List Frame)) (p f : Nat)
+    (h : Spec.latestFrame gs.flatten p = some f) :
+    ∃ fr ∈ gs.flatten, fr.hdr.pageNumber = p ∧ f = fr.index + 1 := by
+  unfold Spec.latestFrame at h
+  rw [Option.map_eq_some_iff] at h
+  obtain ⟨fr, hfr, hn⟩ := h
+  have hmem := List.mem_of_getLast? hfr
+  rw [List.mem_filter] at hmem
+  exact ⟨fr, hmem.1, by simpa using hmem.2, hn.symm⟩
+
+/-! ### commit record -/
+
+
+theorem bind_ok {α β : Type} (x : Py α) (f : α → Py β) (r : β) (h : (x >>= f) = .ok r) :
+    ∃ a, x = .ok a ∧ f a = .ok r := by
+  cases x with
+  | error e => exact nomatch h
+  | ok a => exact ⟨a, rfl, h⟩
+
+theorem commit_record_indices (cfg : Config) (dbv : VersionIf) (wal : Wal) (number : Nat) (frames : List Frame)
+    (prev : Version) (lastHdr : DbHeader) (lastSchema : MasterSchema) (lastRoot : List BPage) (enc : Nat)
+    (ver : Version) (v : VersionIf)
+    (h : makeCommitRecord cfg dbv wal number frames prev lastHdr lastSchema lastRoot enc = .ok (ver, v)) :
+    ∃ fd csize, recordFrames frames = .ok (fd, true, csize) ∧ ver.number = number ∧ ver.dbSize = csize ∧
+      ver.updated = fd.map (·.1) ∧
+      ver.pvi = nextPvi prev.pvi number (fd.map (·.1)) ∧ ver.pfi = nextPfi prev.pfi fd ∧
+      v = walVersionIf cfg.strict dbv wal number csize ver.pvi ver.pfi (fd.map (·.1)) := by
+  unfold makeCommitRecord at h
+  split at h
+  · exact nomatch h
+  split at h
+  · exact nomatch h
+  split at h
+  · exact nomatch h
+  obtain ⟨⟨fd, committed, csize⟩, hr, h⟩ := bind_ok _ _ _ h
+  simp only at h
+  split at h
+  · exact nomatch h
+  rename_i hcom
+  obtain ⟨⟨ubt, ownHdr, rootMod⟩, -, h⟩ := bind_ok _ _ _ h
+  simp only at h
+  split at h
+  · exact nomatch h
+  obtain ⟨flags, -, h⟩ := bind_ok _ _ _ h
+  obtain ⟨⟨rootTree, schema, ubt'⟩, -, h⟩ := bind_ok _ _ _ h
+  simp only at h
+  obtain ⟨fl, -, h⟩ := bind_ok _ _ _ h
+  split at h
+  · exact nomatch h
+  obtain ⟨pm, -, h⟩ := bind_ok _ _ _ h
+  have hfin : ∀ (x : Version × VersionIf) (c : Py (List (Nat × String))),
+      (if cfg.storeInMemory = true then (do let _ ← c; pure x) else (pure x : Py _)) = .ok (ver, v) → x = (ver, v) := by
+    intro x c hx
+    split at hx
+    · obtain ⟨_, -, hx⟩ := bind_ok _ _ _ hx
+      exact Except.ok.inj hx
+    · exact Except.ok.inj hx
+  have hx := hfin _ _ h
+  have hc : committed = true := by simpa using hcom
+  subst hc
+  injection hx with hv1 hv2
+  subst hv1 hv2
+  exact ⟨fd, csize, hr, rfl, rfl, rfl, rfl, rfl, rfl⟩
+
+/-! ### the history fold -/
+
+abbrev HSt := List (Version × VersionIf) × (DbHeader × MasterSchema × List BPage × Nat)
+
+/-- the body of the fold of `versionHistory` -/
+def hStep (cfg : Config) (dbv : VersionIf) (w : Wal) (st : HSt) (g : List Frame) : Py HSt := do
+  let (vs, (lh, ls, lrt, enc)) := st
+  match vs.getLast? with
+  | none => (.error .runtimeError : Py _)
+  | some (pv, _) =>
+    let (cv, cvi) ← makeCommitRecord cfg dbv w (vs.length) g pv lh ls lrt enc
+    let lh' := if cv.hdrModified then cv.hdr else lh
+    let (ls', lrt') := if cv.schemaModified then (cv.schema, cv.rootTree) else (ls, lrt)
+    pure (vs ++ [(cv, cvi)], (lh', ls', lrt', cv.encoding))
+
+theorem versionHistory_eq (cfg : Config) (db : Database) (dbv : VersionIf) (w : Wal) :
+    versionHistory cfg db dbv (some w) =
+      (do
+        let r ← (groupFrames w.frames [] []).1.foldlM (hStep cfg dbv w)
+          ([(versionOfDatabase db, dbv)], (db.hdr, db.schema, db.rootTree, db.encoding))
+        if ¬ (groupFrames w.frames [] []).2.isEmpty then .error .typeError else pure r.1) := by
+  rfl
+
+theorem hStep_ok (cfg : Config) (dbv : VersionIf) (w : Wal) (st st' : HSt) (g : List Frame)
+    (h : hStep cfg dbv w st g = .ok st') :
+    ∃ pv pvi cv cvi, st.1.getLast? = some (pv, pvi) ∧
+      makeCommitRecord cfg dbv w st.1.length g pv st.2.1 st.2.2.1 st.2.2.2.1 st.2.2.2.2 = .ok (cv, cvi) ∧
+      st'.1 = st.1 ++ [(cv, cvi)] := by
+  obtain ⟨vs, lh, ls, lrt, enc⟩ := st
+  unfold hStep at h
+  simp only at h
+  split at h
+  · exact nomatch h
+  · rename_i pv pvi hl
+    obtain ⟨⟨cv, cvi⟩, hm, h⟩ := bind_ok _ _ _ h
+    refine ⟨pv, pvi, cv, cvi, hl, hm, ?_⟩
+    simp only [pure, Except.pure, Except.ok.injEq] at h
+    rw [← h]
+
+def pfiStep (pfi : List (Nat × Nat)) (g : List Frame) : List (Nat × Nat) :=
+  match recordFrames g with
+  | .ok (fd, _, _) => nextPfi pfi fd
+  | .error _ => pfi
+
+def pviStep (pvi : List (Nat × Nat)) (gk : List Frame × Nat) : List (Nat × Nat) :=
+  match recordFrames gk.1 with
+  | .ok (fd, _, _) => nextPvi pvi gk.2 (fd.map (·.1))
+  | .error _ => pvi
+
+structure HInv (base : List (Nat × Nat)) (pre : List (List Frame)) (vs : List (Version × VersionIf)) : Prop where
+  len : vs.length = pre.length + 1
+  ok : ∀ g ∈ pre, ∃ r, recordFrames g = .ok r
+  idx : ∀ (k : Nat) (ver : Version) (v : VersionIf), vs[k]? = some (ver, v) →
+    ver.number = k ∧ ver.pfi = (pre.take k).foldl pfiStep [] ∧
+      ver.pvi = ((pre.take k).zipIdx 1).foldl pviStep base
+
+theorem hInv_step (cfg : Config) (dbv : VersionIf) (w : Wal) (base : List (Nat × Nat))
+    (pre : List (List Frame)) (st st' : HSt) (g : List Frame)
+    (hi : HInv base pre st.1) (h : hStep cfg dbv w st g = .ok st') : HInv base (pre ++ [g]) st'.1 := by
+  obtain ⟨pv, pvi, cv, cvi, hl, hm, hst⟩ := hStep_ok cfg dbv w st st' g h
+  obtain ⟨fd, csize, hr, hnum, -, -, hpvi, hpfi, -⟩ := commit_record_indices _ _ _ _ _ _ _ _ _ _ _ _ hm
+  have hlast : st.1[pre.length]? = some (pv, pvi) := by
+    rw [List.getLast?_eq_getElem?, hi.len] at hl
+    simpa using hl
+  obtain ⟨-, hpf, hpv⟩ := hi.idx _ _ _ hlast
+  rw [List.take_length] at hpf hpv
+  refine ⟨by rw [hst, List.length_append, List.length_append, hi.len]; rfl, ?_, ?_⟩
+  · intro g' hg'
+    rcases List.mem_append.mp hg' with hg' | hg'
+    · exact hi.ok g' hg'
+    · rw [List.mem_singleton] at hg'; subst hg'; exact ⟨_, hr⟩
+  · intro k ver v hk
+    rw [hst] at hk
+    by_cases hlt : k < st.1.length
+    · rw [List.getElem?_append_left hlt] at hk
+      have hle : k ≤ pre.length := by have := hi.len; omega
+      rw [List.take_append_of_le_length hle]
+      exact hi.idx k ver v hk
+    · have hk' : k = st.1.length := by
+        have := (List.getElem?_eq_some_iff.mp hk).1
+        simp only [List.length_append, List.length_singleton] at this
+        omega
+      subst hk'
+      rw [List.getElem?_append_right (Nat.le_refl _)] at hk
+      simp only [Nat.sub_self, List.getElem?_cons_zero, Option.some.injEq, Prod.mk.injEq] at hk
+      obtain ⟨rfl, rfl⟩ := hk
+      have htk : (pre ++ [g]).take st.1.length = pre ++ [g] := by
+        rw [List.take_of_length_le]; rw [List.length_append, hi.len]; exact Nat.le_refl _
+      rw [htk]
+      refine ⟨hnum, ?_, ?_⟩
+      · rw [List.foldl_append, List.foldl_cons, List.foldl_nil, hpfi, hpf]
+        simp only [pfiStep, hr]
+      · rw [List.zipIdx_append, List.foldl_append, hpvi, hpv, hi.len]
+        simp only [List.zipIdx_cons, List.zipIdx_nil, List.foldl_cons, List.foldl_nil, pviStep, hr]
+        rw [Nat.add_comm]
+
+theorem hInv_fold (cfg : Config) (dbv : VersionIf) (w : Wal) (base : List (Nat × Nat))
+    (gs : List (List Frame)) : ∀ (pre : List (List Frame)) (st st' : HSt),
+    HInv base pre st.1 → gs.foldlM (hStep cfg dbv w) st = .ok st' → HInv base (pre ++ gs) st'.1 := by
+  induction gs with
+  | nil =>
+    intro pre st st' hi h
+    simp only [List.foldlM_nil, pure, Except.pure, Except.ok.injEq] at h
+    subst h
+    rw [List.append_nil]; exact hi
+  | cons g gs ih =>
+    intro pre st st' hi h
+    rw [List.foldlM_cons] at h
+    obtain ⟨st1, h1, h2⟩ := bind_ok _ _ _ h
+    have := ih (pre ++ [g]) st1 st' (hInv_step cfg dbv w base pre st st1 g hi h1) h2
+    rwa [List.append_assoc] at this
+
+theorem hInv_init (db : Database) (dbv : VersionIf) :
+    HInv (versionOfDatabase db).pvi [] [(versionOfDatabase db, dbv)] := by
+  refine ⟨rfl, by simp, ?_⟩
+  intro k ver v hk
+  cases k with
+  | zero =>
+    simp only [List.getElem?_cons_zero, Option.some.injEq, Prod.mk.injEq] at hk
+    obtain ⟨rfl, rfl⟩ := hk
+    exact ⟨rfl, rfl, rfl⟩
+  | succ k => simp at hk
+
+theorem history_indices (cfg : Config) (db : Database) (dbv : VersionIf) (w : Wal)
+    (vs : List (Version × VersionIf)) (h : versionHistory cfg db dbv (some w) = .ok vs) :
+    vs.length = (groupFrames w.frames [] []).1.length + 1 ∧
+    ∀ (k : Nat) (ver : Version) (v : VersionIf), vs[k]? = some (ver, v) →
+      ver.number = k ∧
+      ∀ p : Nat,
+        dictGet? ver.pfi p = Spec.latestFrame (((groupFrames w.frames [] []).1.take k).flatten) p ∧
+        dictGet? ver.pvi p =
+          (match Spec.latestTxn ((groupFrames w.frames [] []).1.take k) p with
+           | some j => some j
+           | none => dictGet? (versionOfDatabase db).pvi p) := by
+  rw [versionHistory_eq] at h
+  obtain ⟨st', hf, h⟩ := bind_ok _ _ _ h
+  split at h
+  · exact nomatch h
+  simp only [pure, Except.pure, Except.ok.injEq] at h
+  subst h
+  have inv := hInv_fold cfg dbv w _ _ [] _ st' (hInv_init db dbv) hf
+  rw [List.nil_append] at inv
+  refine ⟨inv.len, ?_⟩
+  intro k ver v hk
+  obtain ⟨hn, hpf, hpv⟩ := inv.idx k ver v hk
+  refine ⟨hn, fun p => ?_⟩
+  have hok : ∀ g ∈ (groupFrames w.frames [] []).1.take k, ∃ r, recordFrames g = .ok r :=
+    fun g hg => inv.ok g (List.mem_of_mem_take hg)
+  rw [hpf, hpv]
+  exact ⟨Wal.page_frame_index_latest _ p hok, Wal.page_version_index_latest _ _ p hok⟩
+
 end SqliteDissect.Proofs.WalHistory
